@@ -236,7 +236,8 @@ def standard_run(pid: str, tier: str, rule: str, assumptions: List[str], extra=N
                 rep.sample({"tid": j["tid"], "ops": [[e["op"], "/".join(e["a"].get("p", [])), "/".join(e["a"].get("q", [])),
                                                      e["a"].get("schema", ""), [d["ok"] for d in e["d"]]] for e in t[1:]]})
             acc = [t for (j, t), v in zip(good, verd) if not v]
-            container_selftest(rep, wd, acc, rng, pid, n=8 if quick else 24)
+            if pid != "C17":
+                container_selftest(rep, wd, acc, rng, pid, n=8 if quick else 24)
             if extra:
                 extra(rep, wd, quick, seed, rng)
             fut.result()
